@@ -357,3 +357,156 @@ Proof.
   unfold has_accept_encoding. rewrite Hi. cbn [Nat.add].
   rewrite skipn_app, skipn_all, Nat.sub_diag. reflexivity.
 Qed.
+
+(* ------------------------------------------------------------------ *)
+(* Vary: addVaryBytes (hasHeaderValue) against list membership *)
+
+(* header values as fasthttp stores them: bytes, CR/LF already replaced by blanks *)
+Definition clean_char (c : N) : bool := (c <? 256) && negb (c =? CR).
+Definition clean (v : bytes) : bool := forallb clean_char v.
+
+Definition range256 : list N := map N.of_nat (seq 0 256).
+Lemma in_range256 c : c < 256 -> In c range256.
+Proof.
+  intros H. unfold range256. apply in_map_iff. exists (N.to_nat c). split; [apply N2Nat.id|]. apply in_seq. lia.
+Qed.
+
+Lemma or20_lower_fact :
+  forallb (fun s => forallb (fun x =>
+     implb (existsb (N.eqb s) strAcceptEncoding && clean_char x && (or20 x =? or20 s)) (lower x =? lower s)) range256) range256 = true.
+Proof. vm_compute. reflexivity. Qed.
+
+Lemma or20_lower s x : In s strAcceptEncoding -> clean_char x = true -> or20 x = or20 s -> lower x = lower s.
+Proof.
+  intros Hs Hx E. assert (Hs256 : s < 256).
+  { assert (Hall : forallb (fun c => c <? 256) strAcceptEncoding = true) by reflexivity.
+    rewrite forallb_forall in Hall. specialize (Hall s Hs). lia. }
+  assert (Hx256 : x < 256) by (unfold clean_char in Hx; lia).
+  pose proof or20_lower_fact as F. rewrite forallb_forall in F. specialize (F s (in_range256 s Hs256)).
+  rewrite forallb_forall in F. specialize (F x (in_range256 x Hx256)).
+  assert (Hex : existsb (N.eqb s) strAcceptEncoding = true) by (apply existsb_exists; exists s; split; [assumption|apply N.eqb_refl]).
+  rewrite Hex, Hx in F. apply N.eqb_eq in E. rewrite E in F. cbn [andb implb] in F. now apply N.eqb_eq.
+Qed.
+
+Lemma ci_eq_lower a : forall b, (forall s, In s b -> In s strAcceptEncoding) -> clean a = true ->
+  ci_eq a b = true -> map lower a = map lower b.
+Proof.
+  unfold ci_eq. induction a as [|x a IH]; intros b Hb Ha E; apply beq_eq in E.
+  - destruct b; [reflexivity|discriminate].
+  - destruct b as [|s b]; [discriminate|]. cbn [map] in *. injection E as E1 E2. cbn in Ha. apply andb_true_iff in Ha as [Hx Ha].
+    f_equal.
+    + apply or20_lower; auto. apply Hb. now left.
+    + apply IH; auto. * intros s' Hs'. apply Hb. now right. * apply beq_eq. exact E2.
+Qed.
+
+(* the shape of stripSpace *)
+Definition all_sp (s : bytes) : bool := forallb (fun c => c =? SP) s.
+
+Lemma strip_left_sp_shape s : exists sp, s = sp ++ strip_left_sp s /\ all_sp sp = true.
+Proof.
+  induction s as [|c r (sp & Hr & Hsp)]; [exists []; auto|]. cbn [strip_left_sp].
+  destruct (c =? SP) eqn:E.
+  - exists (c :: sp). split; [cbn; now rewrite <- Hr|]. unfold all_sp in *. cbn. now rewrite E.
+  - exists []. auto.
+Qed.
+
+Lemma strip_space_shape e : exists sp1 sp2, e = sp1 ++ strip_space e ++ sp2 /\ all_sp sp1 = true /\ all_sp sp2 = true.
+Proof.
+  unfold strip_space. destruct (strip_left_sp_shape e) as (sp1 & H1 & Hs1).
+  destruct (strip_left_sp_shape (rev (strip_left_sp e))) as (sp2 & H2 & Hs2).
+  exists sp1, (rev sp2). split; [|split; [assumption|]].
+  - rewrite H1 at 1. f_equal. rewrite <- rev_app_distr, <- H2. now rewrite rev_involutive.
+  - unfold all_sp in *. rewrite forallb_forall in *. intros x Hx. apply Hs2. now apply in_rev.
+Qed.
+
+Lemma all_sp_trim_left sp s : all_sp sp = true -> trim_left (sp ++ s) = trim_left s.
+Proof.
+  induction sp as [|c r IH]; [reflexivity|]. unfold all_sp in *. cbn. intros H. apply andb_true_iff in H as [Hc Hr].
+  unfold is_ows. rewrite Hc. cbn. now apply IH.
+Qed.
+
+Lemma lower_not_ows x l : lower x = l -> (l =? SP) = false -> (l =? HT) = false -> is_ows x = false.
+Proof.
+  unfold lower, is_ows, SP, HT. intros <- H1 H2. destruct ((65 <=? x) && (x <=? 90)) eqn:E; lia.
+Qed.
+
+(* a member found by hasHeaderValue is a member in the RFC sense *)
+Lemma hv_member_is_member e :
+  clean e = true -> ci_eq (strip_space e) strAcceptEncoding = true -> ieq (trim_ows e) sAcceptEncoding = true.
+Proof.
+  intros Hc Hci. destruct (strip_space_shape e) as (sp1 & sp2 & He & Hs1 & Hs2).
+  set (s' := strip_space e) in *. clearbody s'.
+  assert (Hcs : clean s' = true).
+  { unfold clean in *. rewrite forallb_forall in *. intros x Hx. apply Hc. rewrite He. apply in_or_app. right. apply in_or_app. now left. }
+  assert (Hl : map lower s' = map lower strAcceptEncoding) by (apply ci_eq_lower; auto).
+  (* first and last characters of s' are letters, hence not blanks *)
+  assert (Hshape : exists x mid z, s' = x :: mid ++ [z] /\ is_ows x = false /\ is_ows z = false).
+  { destruct s' as [|x r]; [discriminate|]. destruct r as [|z r0 _] using rev_ind; [discriminate|].
+    exists x, r0, z. split; [reflexivity|].
+    change (x :: r0 ++ [z]) with ((x :: r0) ++ [z]) in Hl. rewrite map_app in Hl.
+    change strAcceptEncoding with ((firstn 14 strAcceptEncoding) ++ [103]) in Hl. rewrite map_app in Hl.
+    apply app_inj_tail in Hl as [Hl1 Hl2]. cbn [map] in Hl1. injection Hl1 as Hx _.
+    split; [eapply lower_not_ows; [exact Hx|reflexivity|reflexivity] | eapply lower_not_ows; [exact Hl2|reflexivity|reflexivity]]. }
+  destruct Hshape as (x & mid & z & Es & Hx & Hz).
+  assert (Etrim : trim_ows e = s').
+  { rewrite He. unfold trim_ows. rewrite all_sp_trim_left by assumption.
+    rewrite Es. cbn [app trim_left]. rewrite Hx.
+    change (x :: (mid ++ [z]) ++ sp2) with ((x :: mid ++ [z]) ++ sp2). rewrite rev_app_distr.
+    rewrite all_sp_trim_left.
+    - assert (Er : rev (x :: mid ++ [z]) = z :: rev mid ++ [x]).
+      { change (x :: mid ++ [z]) with ((x :: mid) ++ [z]). rewrite rev_app_distr. reflexivity. }
+      rewrite Er. cbn [trim_left]. rewrite Hz. rewrite <- Er. apply rev_involutive.
+    - unfold all_sp in *. rewrite forallb_forall in *. intros y Hy. apply Hs2. now apply in_rev. }
+  rewrite Etrim. unfold ieq. rewrite Hl. apply beq_refl.
+Qed.
+
+Lemma hv_elems_in v e : In e (hv_elems v) -> In e (split_comma v).
+Proof.
+  unfold hv_elems. destruct v as [|c r]; [intros []|]. set (es := split_comma (c :: r)).
+  destruct (rev es) as [|l0 l] eqn:E; [auto|]. destruct l0; [|auto].
+  intros H. apply in_rev. rewrite E. right. now apply in_rev in H.
+Qed.
+
+Lemma clean_split_comma v e : clean v = true -> In e (split_comma v) -> clean e = true.
+Proof.
+  revert e. induction v as [|c r IH]; intros e Hv He.
+  - destruct He as [<-|[]]. reflexivity.
+  - cbn in Hv. apply andb_true_iff in Hv as [Hc Hr]. cbn [split_comma] in He. destruct (c =? COMMA).
+    + destruct He as [<-|He]; [reflexivity|now apply IH].
+    + destruct (split_comma r) as [|e0 es] eqn:E; [destruct He as [<-|[]]; cbn; now rewrite Hc|].
+      destruct He as [<-|He].
+      * cbn. rewrite Hc. apply IH; [assumption|now left].
+      * apply IH; [assumption|now right].
+Qed.
+
+Lemma vary_has_value_self : forall rest, vary_has (strAcceptEncoding :: rest) sAcceptEncoding = true.
+Proof. intros rest. reflexivity. Qed.
+
+Lemma vary_has_cons v rest m : vary_has (v :: rest) m = vary_has [v] m || vary_has rest m.
+Proof. unfold vary_has. cbn [existsb]. now rewrite orb_false_r. Qed.
+
+(* after addVaryBytes("Accept-Encoding") the Vary field lists Accept-Encoding, for every previous value *)
+Lemma add_vary_has lines :
+  clean (peek lines) = true -> vary_has (add_vary lines strAcceptEncoding) sAcceptEncoding = true.
+Proof.
+  destruct lines as [|v rest]; [reflexivity|]. cbn [peek add_vary]. intros Hc.
+  destruct v as [|c v']; [apply vary_has_value_self|].
+  destruct (has_header_value (c :: v') strAcceptEncoding) eqn:Eh.
+  - rewrite vary_has_cons. apply orb_true_iff. left. unfold has_header_value in Eh.
+    apply existsb_exists in Eh as (e & He & Hci). apply hv_elems_in in He.
+    unfold vary_has. cbn [existsb]. rewrite orb_false_r. apply existsb_exists. exists e. split; [assumption|].
+    apply hv_member_is_member; [now apply (clean_split_comma (c :: v'))|assumption].
+  - rewrite vary_has_cons. apply orb_true_iff. left.
+    unfold vary_has. cbn [existsb]. rewrite orb_false_r. rewrite split_comma_app_comma, existsb_app.
+    apply orb_true_iff. right. reflexivity.
+Qed.
+
+Lemma vary_set enc kd bl ol ae inflight cap sched r :
+  clean (peek (r_vary r)) = true ->
+  let c := snd (compress_handler enc kd bl ol ae inflight cap sched r) in
+  c = unchanged r \/ vary_has (c_vary c) sAcceptEncoding = true.
+Proof.
+  intros Hg. unfold compress_handler. destruct (choose kd ae) as [k|]; cbn [snd]; [|now left].
+  destruct (compress_body_shape enc k (level_for kd k bl ol) inflight cap sched r) as [H | (_ & _ & H & _)]; [now left|].
+  right. rewrite H. now apply add_vary_has.
+Qed.
